@@ -28,17 +28,19 @@ package innerring
 //@   callee (*innerring.Server).InnerRingIndex
 //@   defines irIndex() == result
 
-//@ callrule alphabet_authority in github.com/nspcc-dev/neofs-node/pkg/innerring*::*, !github.com/nspcc-dev/neofs-node/pkg/innerring::(*Server).voteForFSChainValidator
+//@ callrule alphabet_authority in github.com/nspcc-dev/neofs-node/pkg/innerring*::*
 //@   property C35
 //@   callee *).Invoke, *).NotaryInvoke, *).NotarySignAndInvokeTX, *).TransferGas, *).UpdateNeoFSAlphabetList, *).UpdateNotaryList, *).AlphabetUpdate, *).Cheque, *).Mint, *).Burn, (*balance.Client).Lock, *).NewEpoch, *).SetConfig, *).UpdateContainerPlacement, *).SettleContainerPayment, *).RunAlphabetNotaryScript
 //@   requires [alphabet_member] isAlpha()
 
-// voting: the node derives its alphabet membership from its inner ring index (the
-// alphabet is the prefix of the inner ring list): 0 <= index < number of alphabet contracts
-//@ callrule vote_only_in_alphabet_range in (*Server).voteForFSChainValidator
+// voting (at start-up, and when the Alphabet list changes): like every other Alphabet action it
+// needs the node's ALPHABET index - its position in the committee. The inner ring list is another
+// sorted list: a position in it below the number of Alphabet contracts says nothing about
+// membership in the committee.
+//@ callrule vote_only_with_an_alphabet_index_in_range in (*Server).voteForFSChainValidator
 //@   property C35
 //@   callee *).NotaryInvoke
-//@   requires [index_in_alphabet_range] 0 <= irIndex() && irIndex() < len(s.contracts.alphabet)
+//@   requires [alphabet_index_within_the_alphabet_contracts] 0 <= index && index < len(s.contracts.alphabet)
 
 //@ func (*Server).voteForFSChainValidator
 //@   property C35
@@ -65,9 +67,24 @@ package innerring
 //@   property C35
 //@   pureeffect
 
+// A position is answered only for a key of the list that was compared with the node's key and
+// found equal - "where the key would be inserted" is not membership.
+//@ ghost field keyFoundEqual(x int) bool
+//@ callrule c35_key_comparison in keyPosition
+//@   property C35
+//@   callee bytes.Equal
+//@   assigns keyFoundEqual
+//@   defines keyFoundEqual(0) == result
+//@ callrule c35_key_position_collaborators in keyPosition
+//@   property C35
+//@   callee (*keys.PublicKey).Bytes
+//@   pureeffect
 //@ func keyPosition
 //@   property C35
-//@   pureeffect
+//@   assigns keyFoundEqual
+//@   valid !keyFoundEqual(0)
+//@   loop 1 invariant !keyFoundEqual(0)
+//@   ensures [position_only_for_a_key_found_equal] result == -1 || keyFoundEqual(0)
 
 // The cached role answers are marked fresh only by a refresh that fetched BOTH lists (inner
 // ring keys and committee) and recomputed both positions from them: a refresh cut short
